@@ -23,6 +23,7 @@ from EasyFEA.FEM import Mesh
 from EasyFEA.FEM._mesh import Load_Mesh
 from EasyFEA.Simulations import Load_Simu
 
+from . import _suite
 from ..core import Ctx, quiet, relerr
 from ..gen import meshes as gm
 from . import _sims
@@ -85,6 +86,9 @@ def cases(tier: str, seed: int) -> list[dict]:
     for i, c in enumerate(out):
         c["id"] = f"C15-{i:05d}-{c['kind']}-{c['scheme']}-{c['et']}"
         c["index"] = i
+    for c in _suite.suite_cases(PROP, tier):
+        c["index"] = len(out)
+        out.append(c)
     return out
 
 
@@ -248,6 +252,8 @@ def stored_fields(kind, scheme, simu):
 
 # ------------------------------------------------------------------------------------------
 def run_case(case: dict, ctx: Ctx) -> None:
+    if case.get("fam") == "suite":
+        return _suite.run_suite(case, ctx, PROP)
     rng = np.random.default_rng([case["seed"], NUM, case["index"]])
     kind, scheme, dim, et = case["kind"], case["scheme"], case["dim"], case["et"]
     key0 = f"C15/{kind}/{scheme}"
